@@ -92,7 +92,7 @@ class Gen:
             base += r.choice(['\\b', '\\44', '\\'])
         if self.hc == 'url-control' and r.random() < 0.7:
             # control characters and nothing else that forces quotes (CR and FF are white space in CSS just like LF and TAB)
-            c = r.choice(['\r', '\f', '\n', '\t', '\x0b', '\x01', '\x7f'])
+            c = r.choice(['\r', '\f', '\n', '\t', '\x0b', '\x01', '\x7f', '\xa0', '\u2003', '\u2028', '\u3000', '\x85', '\u200b', '\ufeff'])
             base = r.choice([c + 'ab.png', 'a' + c + 'b.png', 'ab.png' + c, 'img/' + c + c + 'x.gif'])
         return base
 
@@ -533,7 +533,7 @@ class Renderer:
             return self.string(c[1])
         if k == 'url':
             body = c[1]
-            plain_ok = body and not any(ch in body for ch in ' \t\n\r\f()\'",\\;') and not any(ord(ch) < 32 or ord(ch) == 127 for ch in body)
+            plain_ok = body and not any(ch in body for ch in ' \t\n\r\f()\'",\\;') and not any(ord(ch) < 32 or ord(ch) == 127 or (ord(ch) > 127 and not ch.isalnum()) for ch in body)
             if plain_ok and self.s['quotes'] != 'mixed' and self.r.random() < 0.5 or plain_ok and self.s['quotes'] == 'mixed' and self.r.random() < 0.3:
                 inner = body
             else:
